@@ -8,6 +8,8 @@
 -/
 import Aqv.Lemmas.StateGood
 import Aqv.Gen.StateJournal
+import Aqv.Lemmas.StateRootSpec
+import Aqv.Props.C10
 namespace Aqv.Props.C09
 open Aqv Aqv.State
 
@@ -270,5 +272,145 @@ theorem every_field_write_is_journalled :
     (∀ k ∈ ["createObjectChange", "resetObjectChange", "suicideChange", "balanceChange", "nonceChange", "storageChange",
         "codeChange", "refundChange", "addLogChange", "addPreimageChange", "touchChange"],
       ∃ f ∈ Gen.StateJournal.funcs, k ∈ f.2.1) := by decide
+
+
+/-! ### the root equals the Merkle-Patricia root the specification defines for the content (concrete, via C10 and C11)
+
+  `stateRootSpec H addrs slots content` (Aqv.Model.StateRoot) is the Yellow-Paper root (C10 `mptRoot`) of
+  { H(addr) ↦ rlp(Account{nonce, balance, storageRoot, H(code)}) } with storageRoot the `mptRoot` of
+  { H(slot) ↦ rlp(trimmed value) }, for an arbitrary hash function `H`.  The real account trie / storage tries are C10 tries
+  (`Aqv.Trie.run ops`: any history of TryUpdate/TryDelete) — the theorems below say that whenever such tries hold the leaves
+  of a content, their `hashRoot` is `stateRootSpec` of that content, and that after IntermediateRoot/Commit in a `Good`
+  state "that content" is what the getters report.  Key-hash injectivity on the finitely many keys is an explicit hypothesis. -/
+
+open Aqv.Trie in
+/-- a storage trie (any update/delete history) that holds exactly the non-zero slots of `st` hashes to `storageRootSpec`. -/
+theorem storage_root_eq_spec (H : Bytes → Bytes) (slots : List Slot) (st : Slot → Word) (hnd : slots.Nodup)
+    (hinj : InjOnSlots H slots) (hsupp : ∀ k, st k ≠ 0 → k ∈ slots)
+    (ops : List Trie.Op) (t : Trie.Node) (hr : Trie.run ops = some t)
+    (hreal : ∀ kb v, Trie.absOf ops kb = some v ↔ ∃ k, st k ≠ 0 ∧ kb = H (slotBytes k) ∧ v = storageLeaf (st k)) :
+    Trie.hashRoot H t = storageRootSpec H slots st := by
+  unfold storageRootSpec mptRootBytes
+  apply Aqv.Props.C10.root_eq_spec_run H ops t hr (storageKVs H slots st) (sorted_storageKVs H slots st hnd hinj)
+  intro kb v
+  rw [mem_storageKVs, hreal]
+  constructor
+  · rintro ⟨k, _, h1, h2, h3⟩; exact ⟨k, h1, h2, h3⟩
+  · rintro ⟨k, h1, h2, h3⟩; exact ⟨k, hsupp k h1, h1, h2, h3⟩
+
+/-- the real tries of a state content `c`: per account a storage trie holding its non-zero slots, and the account trie
+    holding, under H(address), the RLP of the account with the hash of that storage trie as `Root`. -/
+structure Realises (H : Bytes → Bytes) (c : Addr → Option Acct) (ops : List Trie.Op) (t : Trie.Node)
+    (sops : Addr → List Trie.Op) (st : Addr → Trie.Node) : Prop where
+  storage : ∀ a acct, c a = some acct → Trie.run (sops a) = some (st a) ∧
+    ∀ kb v, Trie.absOf (sops a) kb = some v ↔ ∃ k, acct.storage k ≠ 0 ∧ kb = H (slotBytes k) ∧ v = storageLeaf (acct.storage k)
+  run : Trie.run ops = some t
+  accounts : ∀ kb v, Trie.absOf ops kb = some v ↔
+    ∃ a acct, c a = some acct ∧ kb = H (addrBytes a) ∧ v = acctLeafWith H (Trie.hashRoot H (st a)) acct
+
+/-- the finitely many keys: every present address / non-zero slot is listed, without repetition, and `H` is injective on
+    their secure-trie keys. -/
+structure KeysOK (H : Bytes → Bytes) (addrs : List Addr) (slots : List Slot) (c : Addr → Option Acct) : Prop where
+  addrsNodup : addrs.Nodup
+  slotsNodup : slots.Nodup
+  injA : InjOnAddrs H addrs
+  injS : InjOnSlots H slots
+  suppA : ∀ a acct, c a = some acct → a ∈ addrs
+  suppS : ∀ a acct, c a = some acct → ∀ k, acct.storage k ≠ 0 → k ∈ slots
+
+/-- the account trie of real tries realising `c` hashes to `stateRootSpec H addrs slots c`. -/
+theorem state_trie_root_eq_spec (H : Bytes → Bytes) (addrs : List Addr) (slots : List Slot) (c : Addr → Option Acct)
+    (hk : KeysOK H addrs slots c) (ops : List Trie.Op) (t : Trie.Node) (sops : Addr → List Trie.Op) (st : Addr → Trie.Node)
+    (hr : Realises H c ops t sops st) : Trie.hashRoot H t = stateRootSpec H addrs slots c := by
+  unfold stateRootSpec mptRootBytes
+  apply Aqv.Props.C10.root_eq_spec_run H ops t hr.run (stateKVs H addrs slots c) (sorted_stateKVs H addrs slots c hk.addrsNodup hk.injA)
+  intro kb v
+  rw [mem_stateKVs, hr.accounts]
+  have hleaf : ∀ a acct, c a = some acct → acctLeafWith H (Trie.hashRoot H (st a)) acct = acctLeaf H slots acct := by
+    intro a acct hc
+    obtain ⟨h1, h2⟩ := hr.storage a acct hc
+    unfold acctLeaf
+    rw [storage_root_eq_spec H slots acct.storage hk.slotsNodup hk.injS (hk.suppS a acct hc) (sops a) (st a) h1 h2]
+  constructor
+  · rintro ⟨a, _, acct, hc, h2, h3⟩; exact ⟨a, acct, hc, h2, by rw [h3, hleaf a acct hc]⟩
+  · rintro ⟨a, acct, hc, h2, h3⟩; exact ⟨a, hk.suppA a acct hc, acct, hc, h2, by rw [h3, hleaf a acct hc]⟩
+
+/-- **root_eq_spec_state**: in a `Good` state (reachable by every safe history, `good_reachable`), the real tries behind the
+    StateDB after `IntermediateRoot d` (resp. `Commit d`) — any tries that hold the model's account-trie content — hash to
+    the Merkle-Patricia root the specification defines for the content THE GETTERS REPORT: `stateRootSpec H (contentOf …)`.
+    For every hash function `H` that is injective on the keys involved. -/
+theorem root_eq_spec_state (H : Bytes → Bytes) (d : Bool) (s : SDB) (hg : Good d s) (addrs : List Addr) (slots : List Slot) :
+    (∀ ops t sops st, KeysOK H addrs slots (finalise d s).trie → Realises H (finalise d s).trie ops t sops st →
+      Trie.hashRoot H t = stateRootSpec H addrs slots (contentOf (finalise d s))) ∧
+    (∀ ops t sops st, KeysOK H addrs slots (commit d s).trie → Realises H (commit d s).trie ops t sops st →
+      Trie.hashRoot H t = stateRootSpec H addrs slots (contentOf (commit d s))) := by
+  constructor
+  · intro ops t sops st hk hr
+    rw [← trie_finalise_eq_content hg.binv hg.tomb.ok]
+    exact state_trie_root_eq_spec H addrs slots _ hk ops t sops st hr
+  · intro ops t sops st hk hr
+    rw [← trie_commit_eq_content hg.binv hg.tomb.ok]
+    exact state_trie_root_eq_spec H addrs slots _ hk ops t sops st hr
+
+/-- the abstract `mptRoot` parameter of `root_content_only` instantiated by the concrete construction: the model's
+    IntermediateRoot/Commit root is the specification's root of the reported content. -/
+theorem root_content_only_concrete (H : Bytes → Bytes) (addrs : List Addr) (slots : List Slot) (d : Bool) (s : SDB) (hg : Good d s) :
+    stateRootSpec H addrs slots (finalise d s).trie = stateRootSpec H addrs slots (contentOf (finalise d s)) ∧
+    stateRootSpec H addrs slots (commit d s).trie = stateRootSpec H addrs slots (contentOf (commit d s)) :=
+  root_content_only (stateRootSpec H addrs slots) d s hg
+
+-- non-vacuity: the identity "hash" is injective on the keys of addresses 1..3 and slots 0..2; the spec root of the empty
+-- content is H(rlp("")) (emptyRoot) and an account changes it; a real trie history realising a one-account content exists
+example : InjOnAddrs (fun b => b) [1, 2, 3] ∧ InjOnSlots (fun b => b) [0, 1, 2] := by
+  unfold InjOnAddrs InjOnSlots
+  constructor <;> decide
+example : stateRootSpec (fun b => b) [1, 2, 3] [0, 1, 2] (fun _ => none) = [0x80] := by decide
+example : stateRootSpec (fun b => b) [1] [0] (fun a => if a = 1 then some emptyAcct else none) ≠
+    stateRootSpec (fun b => b) [1] [0] (fun _ => none) := by decide
+
+
+-- non-vacuity of `Realises`/`KeysOK`: a real trie history (one TryUpdate under the key of address 1) realises the content
+-- "account 1 exists and is empty"
+def c1 : Addr → Option Acct := fun a => if a = 1 then some emptyAcct else none
+def leaf1 : Bytes := acctLeafWith (fun b => b) (Trie.hashRoot (fun b => b) .nil) emptyAcct
+
+example : ∃ t, Realises (fun b => b) c1 [.update (addrBytes 1) leaf1] t (fun _ => []) (fun _ => .nil) := by
+  have hrun : ∃ t, Trie.run [.update (addrBytes 1) leaf1] = some t := by
+    cases h : Trie.run [.update (addrBytes 1) leaf1] with
+    | some t => exact ⟨t, rfl⟩
+    | none => exact absurd h (by decide)
+  obtain ⟨t, ht⟩ := hrun
+  refine ⟨t, ?_, ht, ?_⟩
+  · intro a acct hc
+    have : acct = emptyAcct := by
+      unfold c1 at hc; split at hc
+      · exact (Option.some.inj hc).symm
+      · simp at hc
+    subst this
+    refine ⟨rfl, fun kb v => ?_⟩
+    simp [Trie.absOf, Trie.absFrom, emptyAcct]
+  · intro kb v
+    have hl : ¬ leaf1 = [] := by decide
+    simp only [Trie.absOf, Trie.absFrom, Trie.absStep]
+    constructor
+    · intro h
+      by_cases hk : kb = addrBytes 1
+      · simp [hk] at h; exact ⟨1, emptyAcct, rfl, hk, h.2.symm⟩
+      · simp [hk] at h
+    · rintro ⟨a, acct, hc, h2, h3⟩
+      unfold c1 at hc; split at hc
+      · rename_i ha; subst ha
+        have := (Option.some.inj hc).symm; subst this
+        simp [h2, h3]; exact ⟨hl, rfl⟩
+      · simp at hc
+
+example : KeysOK (fun b => b) [1] [0] c1 := by
+  refine ⟨by decide, by decide, by unfold InjOnAddrs; decide, by unfold InjOnSlots; decide, ?_, ?_⟩
+  · intro a acct hc; unfold c1 at hc; split at hc
+    · rename_i h; simp [h]
+    · simp at hc
+  · intro a acct hc k hk; unfold c1 at hc; split at hc
+    · have := (Option.some.inj hc).symm; subst this; simp [emptyAcct] at hk
+    · simp at hc
 
 end Aqv.Props.C09
